@@ -17,7 +17,21 @@ std::uint64_t GetInjectedCount() noexcept;
 
 }  // namespace yaclib
 
+#ifdef YACLIB_VERIF
+#  include <yaclib/fault/verif.hpp>
+#  define YACLIB_INJECT_FAULT(statement)                                                                               \
+    if (auto* verif_before = yaclib::verif::gHooks.before) {                                                           \
+      verif_before(this, __func__);                                                                                    \
+    }                                                                                                                  \
+    yaclib::InjectFault();                                                                                             \
+    statement;                                                                                                         \
+    if (auto* verif_after = yaclib::verif::gHooks.after) {                                                             \
+      verif_after(this, sizeof(*this), __func__);                                                                      \
+    }                                                                                                                  \
+    yaclib::InjectFault()
+#else
 #define YACLIB_INJECT_FAULT(statement)                                                                                 \
   yaclib::InjectFault();                                                                                               \
   statement;                                                                                                           \
   yaclib::InjectFault()
+#endif
